@@ -149,15 +149,15 @@ func (t *ObsList) slice() []ObsEntry {
 
 // State is the per-path mutable state (cloned at forks).
 type State struct {
-	mem     *Mem
-	pc      *PC
-	tape    *TapeList
-	obs     *ObsList
-	steps   int
-	pending []pendingGo // goroutines not yet run (lazy spawn)
-	ghost   map[string]Value
+	mem       *Mem
+	pc        *PC
+	tape      *TapeList
+	obs       *ObsList
+	steps     int
+	pending   []pendingGo // goroutines not yet run (lazy spawn)
+	ghost     map[string]Value
 	unchecked int // symbolic forward branches taken since the last feasibility check
-	splits  int // number of deliberate case splits (concretisations) on this path
+	splits    int // number of deliberate case splits (concretisations) on this path
 }
 
 type pendingGo struct {
@@ -196,16 +196,16 @@ type deferred struct {
 }
 
 type Frame struct {
-	fn     *ssa.Function
-	info   *fnInfo
-	locals []Value
-	block  *ssa.BasicBlock
-	prev   *ssa.BasicBlock
-	ip     int
-	defers []deferred
-	loops  map[int]int // back-edge counts per block index
-	ret    Value
-	depth  int
+	fn      *ssa.Function
+	info    *fnInfo
+	locals  []Value
+	block   *ssa.BasicBlock
+	prev    *ssa.BasicBlock
+	ip      int
+	defers  []deferred
+	loops   map[int]int // back-edge counts per block index
+	ret     Value
+	depth   int
 	running bool // executing deferred calls
 	symIter bool // the last loop-header decision was symbolic
 }
